@@ -61,7 +61,14 @@ claim("C14", "Objective",
       "Convergence from perturbed starts is exercised on a fixed list, not modelled (DESIGN §6). Builtin combinations use one parameter point each. Trusted: TLC, numpy RandomState for drivers.",
       "DESIGN.md §5 C14")
 
+claim("C08", "Intervals",
+      "TLA+ spec Intervals.tla: Must/May envelope of interval semantics enumerated exhaustively by TLC (axis x interval pairs on a half-step grid incl. infinite/reversed/degenerate/outside, interval lists) with closedness, union, complement, order-insensitivity, infinite-bound and monotonicity invariants; every emitted case replayed on applies()/get_axis_slice_from_interval/_get_area (Must <= Aff <= May, implementation monotonicity over all interval pairs) and a sample end to end through optimize()",
+      "Exhaustive over the bounded grid at unit level for zero / only / relation / weight slice / penalty area; end-to-end sample checks the zero pattern of constrained clps, related clps, number_of_clps, reported weights and the equal-area penalty value in linked and unlinked groups; weight precedence (dataset weight wins, warning).",
+      "D2: any affected set between Must and May is accepted for slices/areas; multiplicity of overlapping penalty intervals is not judged. Trusted: TLC, Json module.",
+      "DESIGN.md §5 C08")
+
 ENGINES = [
+    {"name": "Intervals", "path": "spec/Intervals.tla", "serves_properties": ["C08"], "kind_free_text": "TLA+ interval envelope (Must/May) + IntervalsEmit; harness/c08.py"},
     {"name": "Objective", "path": "spec/Objective.tla", "serves_properties": ["C02", "C03", "C13", "C14"], "kind_free_text": "TLA+ staged exact pipeline (Objective.tla, ObjectiveCases.tla) over LinAlg.tla; harness/objective.py, lattice.py, c02.py, c03.py, c13.py, c14.py"},
     {"name": "ClpLink", "path": "spec/ClpLink.tla", "serves_properties": ["C09", "C02"], "kind_free_text": "TLA+ alignment state machine + ClpLinkEmit; harness/c09.py, harness/lattice.py"},
     {"name": "LeastSquares", "path": "spec/LeastSquares.tla", "serves_properties": ["C01"], "kind_free_text": "TLA+ exact oracle over fraction-free integer linear algebra (LinAlg.tla) + LeastSquaresEmit; harness/c01.py"},
